@@ -316,9 +316,19 @@ func nonNilByDominatingTest(v ssa.Value, b *ssa.BasicBlock) bool {
 			continue
 		}
 		var other ssa.Value
-		if bo.X == v {
+		same := func(x ssa.Value) bool {
+			if x == v {
+				return true
+			}
+			// `if c.in.err != nil { return c.in.err }`: a second load of the same field in the block the test guards
+			if k := addrKey(x); k != "" && k == addrKey(v) && v.Parent() != nil && sameFieldValue(v.Parent(), x, v) {
+				return true
+			}
+			return false
+		}
+		if same(bo.X) {
 			other = bo.Y
-		} else if bo.Y == v {
+		} else if same(bo.Y) {
 			other = bo.X
 		} else {
 			continue
@@ -547,4 +557,76 @@ func unspill(v ssa.Value) ssa.Value {
 		return last
 	}
 	return v
+}
+
+// addrKey: a structural name for an address expression built from parameters, field selections and loads
+// ("c.in.err"); "" when the expression has another shape
+func addrKey(v ssa.Value) string {
+	switch x := v.(type) {
+	case *ssa.Parameter:
+		return x.Name()
+	case *ssa.FieldAddr:
+		b := addrKey(x.X)
+		if b == "" {
+			return ""
+		}
+		return b + "." + fieldName(x.X.Type(), x.Field)
+	case *ssa.UnOp:
+		if x.Op == token.MUL {
+			b := addrKey(x.X)
+			if b == "" {
+				return ""
+			}
+			return "*" + b
+		}
+	case *ssa.FreeVar:
+		return "free:" + x.Name()
+	case *ssa.Extract, *ssa.Call, *ssa.Alloc, *ssa.Phi, *ssa.MakeSlice:
+		// any other SSA value is its own name (the same value is the same object)
+		return "v:" + v.Name()
+	}
+	return ""
+}
+
+// addrRoot: the value at the bottom of an address expression
+func addrRoot(v ssa.Value) ssa.Value {
+	for {
+		switch x := v.(type) {
+		case *ssa.FieldAddr:
+			v = x.X
+			continue
+		case *ssa.UnOp:
+			if x.Op == token.MUL {
+				v = x.X
+				continue
+			}
+		}
+		return v
+	}
+}
+
+// sameFieldValue: a and b are loads of the same address expression and the function never stores to a field of
+// that name and type
+func sameFieldValue(f *ssa.Function, a, b ssa.Value) bool {
+	ka, kb := addrKey(a), addrKey(b)
+	if ka == "" || ka != kb {
+		return false
+	}
+	la, ok := a.(*ssa.UnOp)
+	if !ok {
+		return false
+	}
+	fa, ok := la.X.(*ssa.FieldAddr)
+	if !ok {
+		return false
+	}
+	clean := true
+	instrsOf(f, func(_ *ssa.BasicBlock, in ssa.Instruction) {
+		if st, ok := in.(*ssa.Store); ok {
+			if fx, ok := st.Addr.(*ssa.FieldAddr); ok && fx.Field == fa.Field && fx.X.Type() == fa.X.Type() {
+				clean = false
+			}
+		}
+	})
+	return clean
 }
